@@ -45,7 +45,7 @@ def run(prop, patch, tier="quick", budget=None, keep=False, tests=True):
             shutil.rmtree(d, ignore_errors=True)
 
 
-def main():
+def main():  # sensitivity
     prop = sys.argv[1]
     patches = sys.argv[2:] or sorted(glob.glob(os.path.join(VERIF, "selftest", "mutants", prop, "*.patch")))
     budget = os.environ.get("SENS_BUDGET")
